@@ -3,7 +3,7 @@ history-free): registration, family statistics, the property's own predicate on 
 explanation of disagreements, class predicate of the open known finding D19.
 
   c12pure   (c12 ENV SCHEMA (coll B) (calls (u|v|s|c V)...))
-            -> (r (coll B) (CLS same|differs kept|mutated)... (state same|changed) (after same|differs))
+            -> (r (coll B) (CLS same|differs kept|mutated)... (state same|changed) (after same|differs) (desc same|changed))
   c12struct (c12s NAME (calls ...)) -> the same with CLS projected to t          (direct check only)
 
 Harness: harness/cmd/harness/c12_pure.go; model side: coq/Interp/RunC12.v.
@@ -52,7 +52,7 @@ def pure_direct(case, obs):
     if o is None:
         return None
     calls = _calls(pl)
-    items = [x for x in o[1:] if isinstance(x, list) and x and x[0] not in ("coll", "state", "after")]
+    items = [x for x in o[1:] if isinstance(x, list) and x and x[0] not in ("coll", "state", "after", "desc")]
     for i, it in enumerate(items):
         if i >= len(calls):
             break
@@ -66,6 +66,12 @@ def pure_direct(case, obs):
         if isinstance(x, list) and x[0] == "state" and x[1] == "changed":
             return ("after the history %s the decoded defaults (GetDefaults) of the schema %s differ from those before it / of a "
                     "freshly built instance: a call wrote into the schema" % (_short(pl[-1], 500), _schema_text(pl)))
+        if isinstance(x, list) and x[0] == "desc" and x[1] == "changed":
+            return ("during the history %s (followed by Unserialize of the empty map and of each member given as the empty map) the "
+                    "SELF-DESCRIPTION of the schema %s - the flags, default text and rule lists (required_if / required_if_not / "
+                    "conflicts, in the order the schema holds them) of every property of every object; SelfSerialize of a scope - "
+                    "stopped being the one taken before the first call / that of a freshly built instance: a call (possibly a "
+                    "rejected one) wrote into the schema" % (_short(pl[-1], 500), _schema_text(pl)))
         if isinstance(x, list) and x[0] == "after" and x[1] == "differs":
             return ("after the history %s the schema %s answers a later call differently from a freshly built instance"
                     % (_short(pl[-1], 500), _schema_text(pl)))
@@ -89,7 +95,7 @@ def pure_stats(rows):
         typed["narrow / unsigned integers and float32s (converted by the any type and the mappers)"] += len(
             re.findall(r"\((?:i (?:i0|i8|i16|i32|u0|u8|u16|u32|u64)|f f32) ", case))
         o = _parse_obs(re.sub(r"^\(obs \S+ ", "", obs)[:-1])
-        items = [x for x in (o[1:] if o else []) if isinstance(x, list) and x and x[0] not in ("coll", "state", "after")]
+        items = [x for x in (o[1:] if o else []) if isinstance(x, list) and x and x[0] not in ("coll", "state", "after", "desc")]
         failing = False
         for i, c in enumerate(calls):
             ncalls += 1
@@ -121,7 +127,7 @@ def d19_match(m, case, obs, pred):
     only failures are `differs` results of calls on such arguments (no mutation, no state change)"""
     if "(coll 1)" not in pred:
         return False
-    if "mutated" in obs or "(state changed)" in obs or "(after differs)" in obs:
+    if "mutated" in obs or "(state changed)" in obs or "(after differs)" in obs or "(desc changed)" in obs:
         return False
     o, p = _parse_obs(obs), _parse_obs(pred)
     if o is None or p is None or len(o) != len(p):
@@ -130,7 +136,7 @@ def d19_match(m, case, obs, pred):
     calls = _calls(pl)
     k = 0
     for a, b in zip(o[1:], p[1:]):
-        if isinstance(a, list) and a and a[0] in ("coll", "state", "after"):
+        if isinstance(a, list) and a and a[0] in ("coll", "state", "after", "desc"):
             if a != b:
                 return False
             continue
@@ -342,7 +348,7 @@ def d72_match(m, case, obs, pred):
     calls whose own argument holds a map two of whose keys become the same key under that map's key schema
     (int mapper, string mapper, float / bool mapper, the any conversion).  No mutation, no state change, every
     other item exactly as the model predicts."""
-    if "mutated" in obs or "(state changed)" in obs or "(after differs)" in obs:
+    if "mutated" in obs or "(state changed)" in obs or "(after differs)" in obs or "(desc changed)" in obs:
         return False
     o, p = _parse_obs(obs), _parse_obs(pred)
     if o is None or p is None or len(o) != len(p):
@@ -354,7 +360,7 @@ def d72_match(m, case, obs, pred):
     k = 0
     hit = False
     for a, b in zip(o[1:], p[1:]):
-        if isinstance(a, list) and a and a[0] in ("coll", "state", "after"):
+        if isinstance(a, list) and a and a[0] in ("coll", "state", "after", "desc"):
             if a != b:
                 return False
             continue
@@ -381,7 +387,16 @@ def register(props):
     props.PROPS["C12"] = {
         "theory": "Properties/C12.v",
         "families": ["c12pure", "c12struct"],
-        "rule": "c12pure: call histories of 1..12 calls (valid raw values, mutated ones, an arbitrary Go value injected at a random "
+        "rule": "[desc: the SELF-DESCRIPTION of the instance - flags, default text and rule lists (required_if / required_if_not / conflicts, "
+                "in the order the schema holds them) of every property of every object, SelfSerialize of a scope - is taken before the "
+                "first call, after EVERY call of the history (failing ones included), after the probes and on a fresh instance; "
+                "c12pure also runs 40 objects of 3..5 properties whose rule lists name up to three properties in ANY order with "
+                "histories that end in the empty map (every property unset: the rejections of the presence rules); c12struct draws its "
+                "generated schemas from the shared struct-mapped generator incl. XMid (three levels with a plain object in the middle), "
+                "XHold (a one-of member), multi-name rule lists, every other case in rich mode (member defaults and declared partial "
+                "object defaults everywhere), 40 % of the history slots followed by the empty map (fills every default at every level), "
+                "and probes every object-typed member (and its members) given as the empty map against a fresh instance] "
+                "c12pure: call histories of 1..12 calls (valid raw values, mutated ones, an arbitrary Go value injected at a random "
                 "position, the empty map that fills every default, native values for Validate/Serialize; failing calls included) on "
                 "every fixed schema of the C04 family, on seeded generated scopes and on three fixed scope-free schemas whose "
                 "objects have defaults (top level, inline sub-object, list of objects); every call evaluated 20 times on freshly built "
